@@ -36,9 +36,16 @@ def spin_limit_now():
     return SPIN_LIMIT if _spins == 0 else min(SPIN_LIMIT, 0.5)
 
 
+_iter_cpu0 = 0.0  # process CPU time at the start of the current loop iteration
+
+
 def _on_alarm(signum, frame):
     global _spins
     lim = spin_limit_now()
+    # a busy loop burns CPU; a process that merely was not scheduled (loaded machine) or sits in a blocking call has used
+    # little CPU time since the iteration began: no alarm then, the repeating timer asks again
+    if _time.process_time() - _iter_cpu0 < 0.7 * lim:
+        return
     _spins += 1
     raise Spin(f"no return to the event loop for {lim} s of wall-clock time (busy loop)")
 
@@ -96,6 +103,8 @@ class VLoop(asyncio.SelectorEventLoop):
 
     def _run_once(self):
         if self._spin:
+            global _iter_cpu0
+            _iter_cpu0 = _time.process_time()
             # repeating: an exception raised by the handler inside a weakref callback / __del__ / the garbage collector
             # is swallowed by the interpreter ("Exception ignored in ..."); the next tick raises it again
             signal.setitimer(signal.ITIMER_REAL, spin_limit_now(), 0.2)
